@@ -2,6 +2,7 @@ package main
 
 import (
 	"bytes"
+	"context"
 	"encoding/json"
 	"errors"
 	"fmt"
@@ -55,6 +56,7 @@ type ScConf struct {
 type ScEndpoint struct {
 	Kind        string `json:"kind"` // custom | tcp_server | udp_server | tcp_client | udp_client | udp_broadcast | serial | bad_address | busy_port
 	SerialFails int    `json:"serial_fails"`
+	Host        string `json:"host"`          // tcp_client: the endpoint is configured with this domain name (resolved by the harness's DNS)
 	LMode       string `json:"lmode"`         // tcp_client: initial behaviour of the fake server (accept | refuse | accept_close)
 	Drain       bool   `json:"drain"`         // custom: data queued before Close is still readable after Close (like a pipe)
 	ErrWithData bool   `json:"err_with_data"` // custom: an injected read error is returned together with the last bytes (n > 0, err != nil)
@@ -316,6 +318,9 @@ type player struct {
 	peerEnded       map[[2]int]bool
 	kept            []keptFrame                   // frames delivered in events (consumer goroutine only until the scenario is over)
 	nodeA           atomic.Pointer[gomavlib.Node] // what the hooks see (unset while the deprecated constructor is still running)
+	waitFailed      int32                         // a wait of the script has timed out (recorded as Timeout): what follows may find things missing
+	dnsIP           atomic.Value                  // string: what the harness's DNS server answers for A queries
+	listeners2      map[int]net.Listener          // tcp_client with a host name: the second address (127.0.0.2) the name can point to
 	pktConns        map[int]net.PacketConn        // fake UDP server of a udp_client endpoint / listener of a udp_broadcast endpoint
 	udpSrc          map[string]int                // udp_client: source address of the node's socket -> channel instance
 	serials         []*ctlRWC
@@ -544,9 +549,18 @@ func (p *player) consumer() {
 					}
 				}
 			} else if k == "tcp_client" {
-				p.mu.Lock()
-				peer = p.peerSeq[ep]
-				p.mu.Unlock()
+				// the k-th channel of a TCP client is the k-th connection the fake server accepted (a dial can return
+				// before the server's Accept has: wait for the registration, the event is not held up for long)
+				for i := 0; i < 400; i++ {
+					p.mu.Lock()
+					n := p.peerSeq[ep]
+					p.mu.Unlock()
+					if n >= inst {
+						break
+					}
+					time.Sleep(500 * time.Microsecond)
+				}
+				peer = inst
 			} else if k == "udp_client" {
 				peer = inst
 			} else if k == "udp_broadcast" {
@@ -650,6 +664,7 @@ func (p *player) waitFor(bound time.Duration, what string, cond func() bool) boo
 		}
 		if time.Now().After(dl) {
 			p.rec.Put(M{"e": "Timeout", "what": what, "t": p.ms()})
+			atomic.StoreInt32(&p.waitFailed, 1)
 			return false
 		}
 		time.Sleep(time.Millisecond)
@@ -805,6 +820,55 @@ func frameDigest(fr frame.Frame) (d string) {
 	return s
 }
 
+// startDNS: a minimal DNS server on loopback that answers A queries for any name with the address in p.dnsIP (and AAAA
+// queries with an empty answer); the process's default resolver is pointed at it.
+func (p *player) startDNS() {
+	pc, err := net.ListenPacket("udp4", "127.0.0.1:0")
+	if err != nil {
+		fatal("%v", err)
+	}
+	p.pktConns[-1] = pc
+	addr := pc.LocalAddr().String()
+	net.DefaultResolver = &net.Resolver{PreferGo: true, Dial: func(ctx context.Context, network, _ string) (net.Conn, error) {
+		var d net.Dialer
+		return d.DialContext(ctx, "udp4", addr)
+	}}
+	go func() {
+		buf := make([]byte, 1500)
+		for {
+			n, src, err := pc.ReadFrom(buf)
+			if err != nil {
+				return
+			}
+			if n < 17 {
+				continue
+			}
+			q := append([]byte{}, buf[:n]...)
+			// end of the question: name labels, then type and class
+			i := 12
+			for i < n && q[i] != 0 {
+				i += int(q[i]) + 1
+			}
+			if i+5 > n {
+				continue
+			}
+			qtype := int(q[i+1])<<8 | int(q[i+2])
+			qend := i + 5
+			resp := append([]byte{}, q[:qend]...)
+			resp[2], resp[3] = 0x81, 0x80 // response, recursion available, no error
+			resp[6], resp[7], resp[8], resp[9], resp[10], resp[11] = 0, 0, 0, 0, 0, 0
+			ip := net.ParseIP(p.dnsIP.Load().(string)).To4()
+			if qtype == 1 && ip != nil {
+				resp[7] = 1
+				resp = append(resp, 0xC0, 0x0C, 0, 1, 0, 1, 0, 0, 0, 0, 0, 4)
+				resp = append(resp, ip...)
+			}
+			p.rec.Put(M{"e": "DNS", "qtype": qtype, "answer": p.dnsIP.Load().(string), "t": p.ms()})
+			pc.WriteTo(resp, src) //nolint:errcheck
+		}
+	}()
+}
+
 // pktPeer lets the feed step write datagrams to the node through the fake server's own socket.
 type pktPeer struct {
 	pc net.PacketConn
@@ -889,7 +953,8 @@ func cmdNode(o opts) {
 		nInst: map[int]int{}, opened: map[[2]int]bool{}, closedEv: map[[2]int]bool{}, gates: map[string]*gate{},
 		consumerOn: true, evClosed: make(chan struct{}), closeDone: make(chan struct{}), writers: map[int]chan func(){},
 		peers: map[[2]int]net.Conn{}, listeners: map[int]net.Listener{}, lmode: map[int]string{}, serialFailsLeft: map[int]int{},
-		peerSeq: map[int]int{}, expect: map[int]int64{}, peerEnded: map[[2]int]bool{}, pktConns: map[int]net.PacketConn{}, udpSrc: map[string]int{},
+		listeners2: map[int]net.Listener{},
+		peerSeq:    map[int]int{}, expect: map[int]int64{}, peerEnded: map[[2]int]bool{}, pktConns: map[int]net.PacketConn{}, udpSrc: map[string]int{},
 		reuse: map[int]*common.MessageNamedValueInt{}, hangFds: map[int]int{}, hangConns: map[int][]net.Conn{}}
 	p.consCond = sync.NewCond(&p.mu)
 	p.pauseReq = make(chan struct{})
